@@ -116,7 +116,9 @@ func (n *CocagoParser) Visitor(f *ast.File, fset *token.FileSet, fileName string
 			currentStruct.NodeName = x.Name.Name
 			currentStruct.Package = currentFile.PackageName
 			//currentStruct.FilePath = BuildImportName(fileName)
-			dsMap[currentStruct.NodeName] = &currentStruct
+			// every type declaration gets an entry of its own: currentStruct is overwritten by the next TypeSpec
+			ds := currentStruct
+			dsMap[currentStruct.NodeName] = &ds
 		case *ast.StructType:
 			AddStructType(currentStruct.NodeName, x, &currentFile, dsMap)
 		case *ast.FuncDecl:
